@@ -601,6 +601,7 @@ pub fn drive_main<P: Property>(p: &P, args: &Args) -> i32 {
         let mut w = None;
         let o = run_one(p, args.tier, &mut w, &case);
         println!("replay {} recorded_signature={:?}", path, rf.signature);
+        println!("case: {}", crate::util::truncate(&p.render(&case).to_string(), 4000));
         println!("outcome: {}", serde_json::to_string_pretty(&o).unwrap());
         return match o.status {
             Status::Fail => {
